@@ -86,7 +86,7 @@ func clusterRun(ctx *vc.Ctx, faults bool) {
 	var cfgs []cfg
 	switch {
 	case !faults && !ctx.Thorough():
-		cfgs = []cfg{{2, 3, 11}, {3, 3, 6}}
+		cfgs = []cfg{{2, 3, 11}, {3, 2, 6}}
 	case !faults:
 		cfgs = []cfg{{2, 4, 14}, {3, 3, 9}, {3, 4, 8}}
 	case !ctx.Thorough():
